@@ -51,9 +51,14 @@ impl ReferenceIdRequest {
         writer.write_all(&[0; 2])?;
 
         let words = payload_len / 4;
-        assert_eq!(payload_len % 4, 0);
 
         for _ in 1..words {
+            writer.write_all(&[0; 4])?;
+        }
+
+        // A decoded request need not have a payload that is a multiple of four
+        // bytes long: write the rest of the payload together with its padding.
+        if words >= 1 && !payload_len.is_multiple_of(4) {
             writer.write_all(&[0; 4])?;
         }
 
